@@ -260,7 +260,7 @@ static void h_pump_common(int splice_mode)
 	__CPROVER_assert(IFF(v_pump.buf == NULL, r < 0 || v_pump.bytes == 0 ), "[C18] the buffer is handed back exactly when the pump holds no data (or failed)");
 	if (v_pump.buf == NULL && (verif_in.have_buf || g_reads > 0)) {
 		if (splice_mode && r < 0 && bytes0 + g_read_n - g_write_n > 0)
-			__CPROVER_assert(v_tinfo.num_bufs == 0 && k_open_count() == 0 && k_bad_close == 0, "[C18] a pipe that still holds data is closed (both ends, once), not cached");
+			__CPROVER_assert(v_tinfo.num_bufs == 0 && k_open_count() == 0 && k_bad_close == 0, "[C18,C17] a pipe that still holds data is closed (both ends, once), not cached");
 		else
 			__CPROVER_assert(v_tinfo.num_bufs == 1 && k_bad_close == 0, "[C18] an empty buffer goes back to the per-thread cache");
 	}
@@ -293,7 +293,7 @@ void h_pump_destroy(void)
 	__CPROVER_assert(g_setbands == (fin0 != 2 ? 1 : 0) && IMPLIES(g_setbands, !g_sb_in && !g_sb_out), "[C17] destroy withdraws all bands unless they already were");
 	if (verif_in.have_buf) {
 		if (verif_in.splice && bytes0 > 0)
-			__CPROVER_assert(v_tinfo.num_bufs == 0 && k_open_count() == 0 && k_bad_close == 0, "[C18] a pipe buffer with data is closed: both ends, each once");
+			__CPROVER_assert(v_tinfo.num_bufs == 0 && k_open_count() == 0 && k_bad_close == 0, "[C18,C17] a pipe buffer that still holds data is closed (both ends, each once), never cached: a later pump cannot relay stale bytes");
 		else
 			__CPROVER_assert(v_tinfo.num_bufs == 1 && k_bad_close == 0, "[C18] other buffers go back to the cache");
 	}
